@@ -61,7 +61,7 @@ def check_waitn_unlock(mod, rep, rid):
             rep.violate(Violation(rid, c.where(), 'the mutex is released %s: a waker that takes the mutex in between signals before the caller is registered and the wake-up is lost'
                                   % ('before / while the objects are being registered' if not after_enq or in_loop else 'without all objects having been registered'), site='nsync_wait_n/unlock-before-registration'))
 
-def slot_calls(mod, fn, slot):
+def _direct_slot_calls(mod, fn, slot):
     out = []
     for i in fn.real_insts():
         if i.op == 'call' and i.callee is None and isinstance(i.x.get('cv'), str):
@@ -69,6 +69,40 @@ def slot_calls(mod, fn, slot):
             if l is not None and l.op == 'load' and util.last_field(util.addr_class(mod, fn, l.ops[0])) == 'nsync_waitable_funcs_s.' + slot:
                 out.append(i)
     return out
+
+def _helper_has_slot(mod, name, slot, depth=3, in_loop_only=False):
+    """does the defined function `name` (transitively, up to `depth` levels) call through the given slot of a waitable's function table?
+    with in_loop_only: ... from inside a loop of its own (the helper contains the whole per-object loop)"""
+    f = mod.func(name)
+    if f is None or f.decl or depth < 0:
+        return False
+    loops = cfg_of(f).loops() if in_loop_only else None
+    def ok_pos(i):
+        return not in_loop_only or any(i.block.id in body for body in loops.values())
+    if any(ok_pos(i) for i in _direct_slot_calls(mod, f, slot)):
+        return True
+    for i in f.real_insts():
+        if i.op == 'call' and i.callee and i.callee != name and not i.callee.startswith('llvm.'):
+            if ok_pos(i) and _helper_has_slot(mod, i.callee, slot, depth - 1):
+                return True
+            if in_loop_only and _helper_has_slot(mod, i.callee, slot, depth - 1, True):
+                return True
+    return False
+
+def slot_calls(mod, fn, slot):
+    """the calls in fn through a slot of nsync_waitable_funcs_s - made directly, or through a static helper that (transitively) makes
+    them (so that extracting the polling / registration / dequeue code into a helper does not change the verdict); program order"""
+    out = list(_direct_slot_calls(mod, fn, slot))
+    for i in fn.real_insts():
+        if i.op == 'call' and i.callee and not i.callee.startswith('llvm.') and _helper_has_slot(mod, i.callee, slot):
+            out.append(i)
+    order = {b.id: k for k, b in enumerate(fn.blocks)}
+    out.sort(key=lambda i: (order[i.block.id], i.idx))
+    return out
+
+def loops_itself(mod, call, slot):
+    """the call goes to a helper that makes the slot call from inside a loop of its own"""
+    return call.callee is not None and _helper_has_slot(mod, call.callee, slot, in_loop_only=True)
 
 def run(ctx, rep):
     mod = ctx.mod('C')
@@ -115,9 +149,12 @@ def run(ctx, rep):
                 rep.violate(Violation('C11.R1', r.where(), msg, site='nsync_wait_n/lock-balance'))
     # ---- R2: dequeue loop on every path from the first registration attempt
     deq_loops = [h for h, body in loops.items() if deq[0].block.id in body]
-    if not deq_loops:
+    if deq_loops:
+        hdr = min(deq_loops, key=lambda h: len(loops[h]))
+    elif loops_itself(mod, deq[0], 'dequeue'):
+        hdr = deq[0].block.id          # the whole dequeue loop lives in a helper: the call to it must lie on every path
+    else:
         raise AnalysisBroken('C11.R2: the dequeue call is not in a loop')
-    hdr = min(deq_loops, key=lambda h: len(loops[h]))
     skip = paths_avoiding(fn, enq[0], lambda i: i.op == 'ret', lambda i: i.block.id == hdr)
     rep.instance('C11.R2', 'dequeue loop header %s lies on every path from the registration at %s to the return' % (hdr, enq[0].where())); rep.oblig('C11.R2', skip is None)
     if skip is not None:
